@@ -9,4 +9,4 @@ Inductive op :=
 Inductive hname := HGetCandidates | HGetProperCandidates | HGetTankanCandidates | HUpdateFrequency | HRegisterWord | HGetAlphabeticCandidate.
 Inductive spawn_kind := SpawnAsync | SpawnBlocking.
 Inductive fname := TmpFreq | FinFreq | TmpDic | FinDic.
-Inductive fop := FCreate (f : fname) | FWrite (f : fname) | FRename (a b : fname).
+Inductive fop := FCreate (f : fname) | FWrite (f : fname) | FRename (a b : fname) | FRemove (f : fname).
